@@ -737,7 +737,11 @@ func (fr *Frame) runAt(st *State, key string, s ast.Node) {
 		for _, use := range as.Uses {
 			fr.useLemma(st, use, s)
 		}
+		_, isAssign := s.(*ast.AssignStmt)
 		for _, a := range as.Assumes {
+			if isAssign {
+				break // assumptions about an assigned / received value are applied after the statement (atAfter)
+			}
 			env := fr.specEnv(st)
 			t, err := fr.evalClause(env, a)
 			if err != nil {
